@@ -170,16 +170,30 @@ E2E = (" End to end: the clauses are also stated directly about what ampycloud.r
        "meaning, third-party answers of the documented shape).")
 MON = (" The run-time monitor (the decidable Lean spec predicate evaluated on the implementation's output) is proved to raise "
        "nothing on the model's own output (Cxx_monitor_sound*), so it demands nothing beyond the property as modelled.")
+def SRC(fns, thms):
+    return (f" Source tie (second tie, DESIGN 11.10): the Lean text of {fns} is regenerated from /repo's current source by "
+            f"harness/py2lean.py on every run and proved equal to the model for all inputs (Ampy/GenEq); {thms} restate the "
+            "property's clauses on the regenerated definitions. A source outside the translated Python subset falls back to the "
+            "correspondence alone (explored at the thorough size), an equality that no longer checks is a broken proof obligation.")
+
+
+KF = (" On a share of the scenes the mixture / clustering answers are distorted within the shape the theorems assume (kernel "
+      "fuzzing, DESIGN 11.12) and the model replays the distorted answers.")
 EXTRA = {
-    'C01': E2E + MON, 'C02': E2E + MON, 'C03': E2E + MON, 'C04': E2E + MON,
-    'C05': MON,
+    'C01': E2E + MON,
+    'C02': E2E + MON + SRC('CeiloChunk._ncd_or_nsc', 'C02_src_*'),
+    'C03': E2E + MON,
+    'C04': E2E + MON + SRC('utils.calc_base_height', 'C04_src_*'),
+    'C05': MON + KF,
     'C06': (" End to end: C06_run_groups_separated (groups table of every run) and C06_run_split_layers_separated (layers of a "
             "group split into as many layers as the selected mixture distinguishes, no ceilometer excluded)." + MON +
             " That proof obligation exposed and removed a false alarm of the monitor as first written (guarded by the reported "
-            "ncomp, which is the count after re-merging)."),
+            "ncomp, which is the count after re-merging)." + SRC('CeiloChunk._get_min_sep_for_height', 'C06_src_*') + KF),
     'C07': MON,
-    'C08': " API level: C08_api_total (any argument: AmpycloudError from the consistency check, or a chunk) and C08_metar_total.",
-    'C17': MON, 'C18': MON,
+    'C08': " API level: C08_api_total (any argument: AmpycloudError from the consistency check, or a chunk) and C08_metar_total." + KF,
+    'C17': MON + SRC('icao.significant_cloud', 'C17_src_*'),
+    'C18': MON + SRC('wmo.okta2code, height2code and perc2okta', 'C18_src_*'),
+    'C19': SRC('scaler.minrange2minmax, shift_and_scale and minmax_scale', 'C19_src_*'),
 }
 
 
